@@ -4,8 +4,10 @@ set -u
 P="$1"; ID="$2"; TIER="${3:-quick}"
 cd /repo && git reset -q --hard HEAD
 if ! git apply -3 "$P" 2>/dev/null; then echo "PATCH DOES NOT APPLY"; git reset -q --hard HEAD; exit 3; fi
+rm -rf /tmp/evidence.keep && cp -r /verif/evidence /tmp/evidence.keep   # evidence must only ever come from the unchanged tree
 cd /verif && bin/check "$ID" --tier "$TIER" 2>&1 | grep -E "VIOLATION|KNOWN|HARNESS|signature" | head -20
 RC=${PIPESTATUS[0]}
 cd /repo && git reset -q --hard HEAD
+rm -rf /verif/evidence && mv /tmp/evidence.keep /verif/evidence
 cd /verif && bin/check build >/dev/null 2>&1   # never leave a driver built from a patched tree behind
 echo "check exit=$RC"
